@@ -581,13 +581,14 @@ func c18Hazard(in *c18In) string {
 	}
 	switch in.Kind {
 	case "script":
-		committed := false
+		committed, flushFirst := false, false
 		ce := ""
 		for _, o := range in.Script {
 			switch o.K {
 			case "f":
 				if !committed {
-					return "flush-before-header"
+					// the Flush starts the response; a WriteHeader after it is a repeated one
+					committed, flushFirst = true, true
 				}
 			case "wh":
 				if committed {
@@ -601,6 +602,9 @@ func c18Hazard(in *c18In) string {
 					ce = o.B
 				}
 			}
+		}
+		if flushFirst {
+			return "flush-before-header"
 		}
 		if ce != "" && ce != "identity" && !c18Listed[ce] {
 			if ce == "zstd" {
